@@ -114,15 +114,17 @@ PROPS['C02'] = dict(
     obligations=[
         L('c02_rt_k1', 'k_c02_rt_k1_{cfg}', RQ, RALL, fixes=range_fixes),
         L('c02_rt_from_inverted', 'k_c02_rt_inv_k1_{cfg}', RQ, ['u8_u16_p4', 'u8_u16_p8', 'u16_u32_p12', 'u16_u32_p16', 'u32_u64_p24', 'u32_u64_p32'], fixes=range_fixes),
-        L('c02_rt_k2', 'k_c02_rt_k2_{cfg}', ['u8_u16_p4'], ['u8_u16_p4', 'u8_u16_p8', 'u8_u32_p8', 'u16_u32_p12', 'u32_u64_p24'], cap=dict(quick=90, thorough=600)),
+        L('c02_rt_k2', 'k_c02_rt_k2_{cfg}', [], ['u8_u16_p4', 'u8_u16_p8', 'u8_u32_p8', 'u16_u32_p12', 'u32_u64_p24'], cap=dict(quick=90, thorough=600), explore_cap=dict(quick=300, thorough=3000)),
         L('c02_rt_k3', 'k_c02_rt_k3_{cfg}', [], ['u8_u16_p4', 'u8_u16_p8'], cap=dict(quick=90, thorough=900)),
-        L('c02_fresh_k2', 'k_c02_fresh_k2_{cfg}', ['u8_u16_p4'], ['u8_u16_p4', 'u8_u16_p8', 'u8_u32_p8', 'u16_u32_p12', 'u32_u64_p24'], cap=dict(quick=90, thorough=600)),
+        L('c02_fresh_k2', 'k_c02_fresh_k2_{cfg}', ['u8_u16_p4'], ['u8_u16_p4', 'u8_u16_p8', 'u8_u32_p8', 'u16_u32_p12', 'u32_u64_p24'], cap=dict(quick=90, thorough=600), explore_cap=dict(quick=400, thorough=3000)),
         L('c02_fresh_k3', 'k_c02_fresh_k3_{cfg}', [], ['u8_u16_p8'], cap=dict(quick=90, thorough=900)),
         L('c02_step_inv', 'k_c02_step_inv_{cfg}', RQ, RALL, soft=INV_SOFT, fixes=range_fixes),
         L('c02_inverted_step_ref', 'k_c06_range_inv_{cfg}', ['u8_u16_p4', 'u16_u32_p12', 'u32_u64_p24'], ['u8_u16_p4', 'u8_u16_p8', 'u16_u32_p12', 'u16_u32_p16', 'u32_u64_p24'], fixes=range_fixes),
         K('c02_rt_k1_u8_u16_p4_cbmc', 'kk', 'c02_rt_k1_u8_u16_p4', tq=600),
         K('c02_rt_k1_u8_u16_p8_cbmc', 'kk', 'c02_rt_k1_u8_u16_p8', tq=900),
+        K('c02_rt_k2_u8_u16_p4_cbmc', 'kk', 'c02_rt_k2_u8_u16_p4', tq=1200),
         K('c02_rt_k2_u8_u16_p8_cbmc', 'kk', 'c02_rt_k2_u8_u16_p8', tiers=('thorough',), tt=7200),
+        K('c02_rt_k3_u8_u16_p4_cbmc', 'kk', 'c02_rt_k3_u8_u16_p4', tiers=('thorough',), tt=14400),
     ],
     bounds='k <= 3 symbols per cut; cut = arbitrary raw encoder state (lower, range) in the Normal situation with an empty sink + decoder started from the same state '
            '(k=1 at every listed width; k=2,3 at the small widths), and the fresh encoder (k <= 3); any (cum,p) via the Cuts model. At StateBits >= 32 the `range` '
@@ -148,7 +150,8 @@ PROPS['C11'] = dict(
     obligations=[
         L('c11_suffix_k1', 'k_c11_suffix_k1_{cfg}', RQ, ['u8_u16_p4', 'u8_u16_p8', 'u16_u32_p12', 'u16_u32_p16', 'u32_u64_p24', 'u32_u64_p32'], fixes=range_fixes),
         L('c11_suffix_from_inverted', 'k_c11_suffix_inv_k1_{cfg}', RQ, ['u8_u16_p4', 'u8_u16_p8', 'u16_u32_p12', 'u16_u32_p16', 'u32_u64_p24', 'u32_u64_p32'], fixes=range_fixes),
-        L('c11_suffix_k2', 'k_c11_suffix_k2_{cfg}', ['u8_u16_p4'], ['u8_u16_p4', 'u8_u16_p8', 'u16_u32_p12', 'u32_u64_p24'], cap=dict(quick=90, thorough=600)),
+        L('c11_suffix_k2', 'k_c11_suffix_k2_{cfg}', [], ['u8_u16_p4', 'u8_u16_p8', 'u16_u32_p12', 'u32_u64_p24'], cap=dict(quick=90, thorough=600), explore_cap=dict(quick=300, thorough=3000)),
+        K('c11_suffix_k2_u8_u16_p4_cbmc', 'kk', 'c11_suffix_k2_u8_u16_p4', tiers=('thorough',), tt=7200), K('c11_suffix_k1_u8_u16_p4_cbmc', 'kk', 'c11_suffix_k1_u8_u16_p4', tq=900),
         K('c11_suffix_k1_u8_u16_p8_cbmc', 'kk', 'c11_suffix_k1_u8_u16_p8', tq=900),
     ],
     bounds='as C02 cut obligations, with StateBits/WordBits + k arbitrary suffix words appended after the sealed output; StateBits = 2*WordBits configurations (all presets)',
@@ -309,7 +312,7 @@ PROPS['C18'] = dict(
                  K('c18_ans_valid_bits_u8_u16', 'ans', 'binary_u8_u16'), K('c18_ans_valid_bits_u16_u32', 'ans', 'binary_u16_u32', tiers=('thorough',))] + RG[:4] +
                 [K('c18_bit_len_stack', 'bits', 'stack_export_import', tq=900), K('c18_bit_len_queue', 'bits', 'queue_fifo', tq=900),
                  K('c18_float_views', 'models', 'conv_symbol_table', tq=900),
-                 L('c18_range_exhaustion', 'k_c02_fresh_k2_{cfg}', ['u8_u16_p4'], ['u8_u16_p4', 'u8_u16_p8', 'u16_u32_p12'], cap=dict(quick=90, thorough=600)),
+                 L('c18_range_exhaustion', 'k_c02_fresh_k2_{cfg}', ['u8_u16_p4'], ['u8_u16_p4', 'u8_u16_p8', 'u16_u32_p12'], cap=dict(quick=90, thorough=600), explore_cap=dict(quick=400, thorough=3000)),
                  L('c18_range_exhaustion_k1', 'k_c02_rt_k1_{cfg}', RQ, RALL, fixes=range_fixes)],
     bounds='as C01/C02/C08/C16: size and emptiness queries compared with the length of the actual export from any raw state; exhaustion after exactly the encoded symbols (k <= 2); '
            'floating-point views of probabilities equal p / 2^P exactly',
